@@ -44,6 +44,11 @@ Theorem C17_captured_locals_synchronised : captured_ok captured_accesses = true.
 Proof. exact captured_hold. Qed.
 Print Assumptions C17_captured_locals_synchronised.
 
+(* ... and every run loop is started at most once per value (there is ONE owner goroutine) *)
+Theorem C17_one_run_loop_per_value : single_owner_ok run_starts = true.
+Proof. exact single_owner_holds. Qed.
+Print Assumptions C17_one_run_loop_per_value.
+
 (* without the discipline a race exists (the notion is not vacuous) *)
 Theorem C17_race_without_discipline : race [Acc 1 7 true; Acc 2 7 false] 7.
 Proof. exact undisciplined_race. Qed.
